@@ -369,6 +369,10 @@ def islands_world(variant):
     if variant == 1:
         w["genes"].append({"id": "GE", "chr": "chr1", "strand": "+", "transcripts": [{"id": "TE", "exons": [[1, 300], [601, 900], [1201, 1500]]}]})
     syn.plant_for_transcripts(w)
+    if variant == 5:
+        # the last annotated intron is not canonical on either strand: reads that cover only the first three exons (uniquely assigned,
+        # all their own introns GT-AG) are canonical, full-length reads are not
+        w["sites"] = [[c, s_, e_, ("nc" if (s_, e_) == (ex[4][1] + 1, ex[5][0] - 1) else k)] for c, s_, e_, k in w["sites"]]
     W.add_sites_for_blocks(w, "chr1", [ex[3], ex[5]], "+")
     W.add_sites_for_blocks(w, "chr1", [ex[5], [5601, 5850]], "+")
     W.dedup_sites(w)
@@ -587,7 +591,7 @@ def run(ctx):
     n = 3 if quick else 4
     orders = sorted(set(itertools.product("lr", repeat=n)) - {("l",) * n, ("r",) * n})
     jobs = [("anti", o, ctx.scratch) for o in orders] + [("antinovel", (v, lvl), ctx.scratch) for v in (0, 1, 2) for lvl in ("all", "auto")] + \
-        [("islands", (v, lvl), ctx.scratch) for v in (0, 1, 2, 3, 4) for lvl in ("auto", "all")] + \
+        [("islands", (v, lvl), ctx.scratch) for v in (0, 1, 2, 3, 4, 5) for lvl in ("auto", "all")] + \
         [("mixed", (n, lvl), ctx.scratch) for n in ((2,) if quick else (1, 2, 3)) for lvl in ("auto", "all")] + \
         [("undecided", (v, pr), ctx.scratch) for v in (0, 1) for pr in ("never", "auto")] + [("shared", (mf, wk, rf, lvl), ctx.scratch) for mf in (0, 1, 2) for wk in (0, 1) for rf in (0, 1) for lvl in ("all", "auto")] + [("novel", lvl + sw, ctx.scratch) for lvl in ("auto", "only_canonical", "only_stranded", "all") for sw in ("", "/swap", "/nopolya")]
     nchecked = 0
